@@ -4,7 +4,8 @@ import common as C
 import dm14h, scen
 
 FILES = ['theories/Base.v', 'theories/gen/Dm14Gen.v', 'theories/Dm14Model.v', 'proofs/Dm14Proofs.v', 'theories/Items.v',
-         'theories/Dm14Srv.v', 'theories/Dm14Replay.v', 'proofs/Dm14SrvProofs.v']
+         'theories/Dm14Srv.v', 'theories/Dm14Replay.v', 'proofs/Dm14SrvProofs.v',
+         'theories/Dm14Cli.v', 'theories/Dm14CliReplay.v', 'proofs/Dm14CliProofs.v', 'proofs/Dm14SrvPhases.v']
 runner = dm14h.runner
 ITEMS = ['item_dm14_payload', 'item_dm14_fields', 'item_dm15', 'item_dm15_fields', 'item_dm14_v2b', 'item_dm14_b2v', 'item_dm16']
 
@@ -102,8 +103,9 @@ def run(out, tier, rng, work):
         out.broken.append('item correspondence %s did not evaluate: %s' % (e[0], e[1][-200:]))
     for m in mism[:20]:
         out.broken.append('correspondence %s: model and implementation differ on input %s (impl %s)' % (m[0], m[1][:14], m[2][:14]))
-    import dm14srv
+    import dm14srv, dm14cli
     dm14srv.stage(out, tier, rng, work, C)
+    dm14cli.stage(out, tier, rng, work, C)
     worst = {}
     runs = [(nm, sc) for nm, sc in sprop.load_corpus('C17')] + [('gen-%d' % k, gen(rng, k)) for k in range(120 if tier == 'quick' else 2500)]
     for nm, sc in runs:
